@@ -60,9 +60,11 @@ template<int TAG> struct Tr
   int* cell;
   int id;
   unsigned magic;
+  const Tr* self;                     // where this instance was constructed: an instance that was moved
+                                      // bitwise (memcpy / realloc relocation) is not a constructed instance
   enum { LIVE = 0x51AB1E00u + TAG, GONE = 0xDEAD0000u + TAG };
 
-  bool alive() const { return magic == LIVE && id > 0 && id < MAXI && g_state[id] == 1; }
+  bool alive() const { return magic == LIVE && self == this && id > 0 && id < MAXI && g_state[id] == 1; }
   int read() const { if(!alive()) ++g_bad; return *cell; }          // *cell of a dead instance: ASan
   int peek() const { return *cell; }
   void init(int v)
@@ -70,7 +72,7 @@ template<int TAG> struct Tr
     ++g_intr;
     cell = (int*)malloc(sizeof(int)); *cell = v;
     --g_intr;
-    id = g_next++; magic = LIVE;
+    id = g_next++; magic = LIVE; self = this;
     if(id < MAXI) g_state[id] = 1;
     if(++g_live > RUNAWAY) { fflush(stdout); fprintf(stderr, "runaway: %ld live instances\n", g_live); _exit(3); }
   }
@@ -311,11 +313,19 @@ static void dump_caps(void)
   }
 }
 
+// instances an empty container of each kind holds for itself (the element inside the embedded end item
+// of the node containers): measured once at start-up, not assumed
+static long g_base[POOLMAP + 1];
+
 static void line(long c, const char* res)
 {
   printf("%ld %s | ", c, res);
   dump_state();
-  printf(" ; live=%ld bad=%ld | ev=%s nb=%d caps=", g_live, g_bad, g_evlen ? g_ev : ".", g_nb);
+  // stored = the live instances that the contents account for: all of them minus what the containers
+  // themselves hold when they are empty
+  long stored = g_live;
+  for(int x = 0; x < NV; ++x) stored -= g_base[kindv[x]];
+  printf(" ; stored=%ld bad=%ld | live=%ld ev=%s nb=%d caps=", stored, g_bad, g_live, g_evlen ? g_ev : ".", g_nb);
   dump_caps();
   printf("\n");
 }
@@ -397,6 +407,35 @@ static bool do_ins(int x, Pos p, Arg ka, Arg va)
   case HASHMAP: AS(THM, x)->insert(pos_iter(*AS(THM, x), p), *kr, *vr); break;
   case HASHSET: AS(THS, x)->insert(pos_iter(*AS(THS, x), p), *kr); break;
   case POOLMAP: AS(TPM, x)->insert(pos_iter(*AS(TPM, x), p), *kr); break;
+  default: break;
+  }
+  g_win = 0;
+  if(vt) vt->~V();
+  if(kt) kt->~K();
+  return true;
+}
+
+// the one-line wrappers: List::prepend / append(value), HashMap::prepend / append(key, value),
+// HashSet::prepend / append(key), PoolMap::append(key)
+static bool do_insw(int x, bool front, Arg ka, Arg va)
+{
+  Kind k = kindv[x];
+  if(!(k == LIST || k == HASHMAP || k == HASHSET || (k == POOLMAP && !front))) return false;
+  bool need_key = has_key(k), need_val = has_val(k) && k != POOLMAP;
+  if(need_key && !ka.mode) return false;
+  if(need_val && !va.mode) return false;
+  char kbuf[sizeof(K)] __attribute__((aligned(8)));
+  char vbuf[sizeof(V)] __attribute__((aligned(8)));
+  const K* kr = 0; const V* vr = 0;
+  K* kt = 0; V* vt = 0;
+  if(need_key) { if(ka.mode == 1) { kt = new(kbuf) K(ka.z); kr = kt; } else kr = ka.k; }
+  if(need_val) { if(va.mode == 1) { vt = new(vbuf) V(va.z); vr = vt; } else vr = va.v; }
+  g_win = 1;
+  switch(k) {
+  case LIST: if(front) AS(TL, x)->prepend(*vr); else AS(TL, x)->append(*vr); break;
+  case HASHMAP: if(front) AS(THM, x)->prepend(*kr, *vr); else AS(THM, x)->append(*kr, *vr); break;
+  case HASHSET: if(front) AS(THS, x)->prepend(*kr); else AS(THS, x)->append(*kr); break;
+  case POOLMAP: AS(TPM, x)->append(*kr); break;
   default: break;
   }
   g_win = 0;
@@ -671,6 +710,8 @@ static void op(long c, long, vh::Tok& t)
     }
   } else if(!strcmp(o, "ins") && t.n == 5) {
     if(livev(x)) did = do_ins((int)x, parse_pos(t.v[2]), parse_arg(t.v[3], true), parse_arg(t.v[4], false));
+  } else if(!strcmp(o, "insw") && t.n == 5 && (!strcmp(t.v[2], "f") || !strcmp(t.v[2], "b"))) {
+    if(livev(x)) did = do_insw((int)x, t.v[2][0] == 'f', parse_arg(t.v[3], true), parse_arg(t.v[4], false));
   } else if(!strcmp(o, "remat") && t.n == 3) {
     if(livev(x)) did = do_remat((int)x, atol(t.v[2]));
   } else if(!strcmp(o, "remkey") && t.n == 3) {
@@ -798,8 +839,19 @@ static void end(long c)
   printf("%ld end | live=%ld bad=%ld nb=%d | ev=%s\n", c, g_live, g_bad, g_nb, g_evlen ? g_ev : ".");
 }
 
+template<typename C> static long base_of(void)
+{
+  long before = g_live;
+  C* c = new(AS(C, 0)) C;
+  long n = g_live - before;
+  c->~C();
+  return n;
+}
+
 int main(int argc, char** argv)
 {
+  g_base[ARRAY] = base_of<TA>(); g_base[LIST] = base_of<TL>(); g_base[MAP] = base_of<TM>(); g_base[MULTIMAP] = base_of<TMM>();
+  g_base[HASHMAP] = base_of<THM>(); g_base[HASHSET] = base_of<THS>(); g_base[POOLLIST] = base_of<TPL>(); g_base[POOLMAP] = base_of<TPM>();
   __sanitizer_install_malloc_and_free_hooks(on_malloc, on_free);
   return vh::run(argc, argv, begin, op, end);
 }
